@@ -190,6 +190,14 @@ pub enum Cmp {
     /// production-like: compare only the parts the downstream consumes
     /// (`!!!` as downstream: all parts of the upstream), ignore `|...`
     Prod,
+    /// not symmetric: unaltered iff the content is the same and the `|t<n>` component did not go
+    /// backwards (a result older than the recorded one is suspicious).  Along a chain n only grows,
+    /// so asked (recorded, current) it agrees with `Noise`; asked the mirrored question it does not.
+    Mono,
+}
+
+fn stamp(rec: &str) -> i64 {
+    rec.rsplit_once("|t").and_then(|(_, n)| n.parse().ok()).unwrap_or(-1)
 }
 
 /// naming convention for the input list
@@ -279,6 +287,7 @@ impl Cfg {
         match self.cmp {
             Cmp::Plain => last != cur,
             Cmp::Noise => strip(last) != strip(cur),
+            Cmp::Mono => strip(last) != strip(cur) || stamp(cur) < stamp(last),
             Cmp::Prod => {
                 let g = &self.graph;
                 let parts: Vec<String> = match (g.idx(up_id), g.idx(down_id)) {
@@ -463,6 +472,7 @@ pub fn reference(cfg: &Cfg) -> Reference {
     }
 }
 
+/// `a`: the earlier history (recorded side of the comparison), `b`: the later one
 pub fn hist_equiv(cfg: &Cfg, a: &Hist, b: &Hist) -> bool {
     a.len() == b.len()
         && a.iter().all(|(k, v)| match b.get(k) {
